@@ -225,6 +225,7 @@ func (server *GripServer) BulkAdd(stream gripql.Edit_BulkAddServer) error {
 	var errorCount int32
 
 	elementStream := make(chan *gdbi.GraphElement, 100)
+	streamOpen := false //true while elementStream is being consumed by a graph's BulkAdd
 	wg := &sync.WaitGroup{}
 
 	for {
@@ -247,8 +248,11 @@ func (server *GripServer) BulkAdd(stream gripql.Edit_BulkAddServer) error {
 
 		// create a BulkAdd stream per graph
 		// close and switch when a new graph is encountered
-		if element.Graph != graphName {
-			close(elementStream)
+		if !streamOpen || element.Graph != graphName {
+			if streamOpen {
+				close(elementStream)
+				streamOpen = false
+			}
 			gdb, err := server.getGraphDB(element.Graph)
 			if err != nil {
 				errorCount++
@@ -264,6 +268,7 @@ func (server *GripServer) BulkAdd(stream gripql.Edit_BulkAddServer) error {
 
 			graphName = element.Graph
 			elementStream = make(chan *gdbi.GraphElement, 100)
+			streamOpen = true
 
 			wg.Add(1)
 			go func() {
@@ -304,7 +309,9 @@ func (server *GripServer) BulkAdd(stream gripql.Edit_BulkAddServer) error {
 		}
 	}
 
-	close(elementStream)
+	if streamOpen {
+		close(elementStream)
+	}
 	wg.Wait()
 
 	return stream.SendAndClose(&gripql.BulkEditResult{InsertCount: insertCount, ErrorCount: errorCount})
